@@ -58,3 +58,14 @@ harness! { fn huff_next_state_matches_model() {
     nd_cover!(nb == 0, "zero width");
     core::mem::forget(t);
 } }
+
+/// state injection: the canonical table of the prefix code A = '0', B = '10', C = '11' (max_num_bits 2): the decode
+/// table is indexed by the next two bits of the stream
+pub(crate) fn inject_abc_table(t: &mut HuffmanTable, a: u8, b: u8, c: u8) {
+    t.reset();
+    t.max_num_bits = 2;
+    t.decode.push(Entry { symbol: a, num_bits: 1 });
+    t.decode.push(Entry { symbol: a, num_bits: 1 });
+    t.decode.push(Entry { symbol: b, num_bits: 2 });
+    t.decode.push(Entry { symbol: c, num_bits: 2 });
+}
